@@ -37,6 +37,7 @@ func vpImplies(a, b bool) bool
 func vpIte(c bool, a, b int64) int64
 func vpYield(label string)
 func vpYieldLazy(label string, maxWait time.Duration) // parked until chosen at a store-visible point or maxWait elapsed
+func vpYieldLazyOps(label string, maxWait time.Duration) // as vpYieldLazy, but only chosen while another goroutine is parked at a store-operation leg
 func vpDelay(label string, lo, hi time.Duration)
 func vpNow() int64
 func vpEvent(kind string, args ...any)
